@@ -167,7 +167,7 @@ fn c19_draws_with_rejected_candidates() {
     kani::cover!(a != b);
 }
 
-// @ob id=C19 tier=quick req=1 to=1800 mem=24 funcs="DefaultRandomCoin::draw_integers" bounds="requested counts 999..=1002 around the 1000-attempt cap of draw_integers, domain 2^12, identity hasher" sym="nonce (full 64 bits), requested count" desc="draw_integers returns exactly the requested number of integers or an error -- never a shorter vector"
+// @ob id=C19 tier=thorough req=0 to=3600 mem=24 funcs="DefaultRandomCoin::draw_integers" bounds="ATTEMPT (did not finish in 1800 s): requested counts 999..=1002 around the 1000-attempt cap of draw_integers, domain 2^12, identity hasher" sym="nonce (full 64 bits), requested count" desc="draw_integers returns exactly the requested number of integers or an error -- never a shorter vector"
 #[kani::proof]
 #[kani::unwind(1003)]
 #[kani::stub(alloc::fmt::format, nofmt)]
